@@ -76,6 +76,45 @@ def _loop_local_alias(fn, definition, alias: str, loop_vars: set) -> bool:
     return True
 
 
+def _object_alias_pass(fn) -> bool:
+    """`v = Ctor(...)` directly followed by `self.a = v` (both bound once): the object is `self.a` from then on - fused to
+    `self.a = Ctor(...)`, later reads of `v` become `self.a`."""
+    counts = _assign_counts(fn)
+    changed = False
+    for owner, field, lst in list(_stmt_lists(fn)):
+        new, i = [], 0
+        while i < len(lst):
+            st = lst[i]
+            nxt = lst[i + 1] if i + 1 < len(lst) else None
+            if (isinstance(st, ast.Assign) and len(st.targets) == 1 and isinstance(st.targets[0], ast.Name) and isinstance(st.value, ast.Call)
+                    and len(counts.get(st.targets[0].id, [])) == 1
+                    and isinstance(nxt, ast.Assign) and len(nxt.targets) == 1 and isinstance(nxt.targets[0], ast.Attribute) and isinstance(nxt.targets[0].value, ast.Name)
+                    and nxt.targets[0].value.id == "self" and isinstance(nxt.value, ast.Name) and nxt.value.id == st.targets[0].id):
+                attr = norm(nxt.targets[0])
+                stores = [x for x in walk_no_nested(fn) if isinstance(x, ast.Attribute) and isinstance(x.ctx, (ast.Store, ast.Del)) and norm(x) == attr]
+                if len(stores) == 1:
+                    name = st.targets[0].id
+                    fused = ast.copy_location(ast.Assign(targets=[nxt.targets[0]], value=st.value), st)
+                    new.append(fused)
+                    i += 2
+
+                    class Sub(ast.NodeTransformer):
+                        def visit_Name(self, node):
+                            if node.id == name and isinstance(node.ctx, ast.Load):
+                                return ast.copy_location(ast.Attribute(value=ast.Name(id="self", ctx=ast.Load()), attr=nxt.targets[0].attr, ctx=ast.Load()), node)
+                            return node
+
+                    for later in lst[i:]:
+                        Sub().visit(later)
+                    ast.fix_missing_locations(fn)
+                    changed = True
+                    continue
+            new.append(st)
+            i += 1
+        setattr(owner, field, new)
+    return changed
+
+
 def _alias_pass(fn) -> bool:
     counts = _assign_counts(fn)
     stored = set()
@@ -488,8 +527,13 @@ def _unroll_pass(fn) -> bool:
                     if other is st:
                         seen = True
                         continue
-                    if seen and any(isinstance(x, ast.Name) and x.id == st.target.id for x in ast.walk(other)):
+                    if not seen:
+                        continue
+                    if isinstance(other, ast.For) and any(isinstance(x, ast.Name) and x.id == st.target.id for x in ast.walk(other.target)) and not any(isinstance(x, ast.Name) and x.id == st.target.id for x in ast.walk(other.iter)):
+                        break  # bound anew by a later loop before anybody reads it
+                    if any(isinstance(x, ast.Name) and x.id == st.target.id for x in ast.walk(other)):
                         later_use = True
+                        break
                 if later_use:
                     new.append(st)
                     continue
@@ -522,6 +566,7 @@ def normalise(repo, finfo, keep=(), helpers=True, aliases=True, comps=True, ifex
         if ifexp:
             changed |= _ifexp_pass(fn)
         if aliases:
+            changed |= _object_alias_pass(fn)
             changed |= _alias_pass(fn)
         if not changed:
             break
